@@ -304,7 +304,17 @@ func (st Style) tag(t Trim, body string) string {
 	if t.R && !st.NoTrim {
 		r = "-" + r
 	}
-	return l + st.gap(false) + body + st.gap(false) + r
+	return l + st.pad(body, true) + body + st.pad(body, false) + r
+}
+
+// pad is the gap between a delimiter and the body; a body that begins or ends
+// with a hyphen must be kept apart from the delimiter (else it reads as a trim marker).
+func (st Style) pad(body string, left bool) string {
+	g := st.gap(false)
+	if g == "" && (left && strings.HasPrefix(body, "-") || !left && strings.HasSuffix(body, "-")) {
+		return " "
+	}
+	return g
 }
 
 func (st Style) obj(t Trim, body string) string {
@@ -315,7 +325,7 @@ func (st Style) obj(t Trim, body string) string {
 	if t.R && !st.NoTrim {
 		r = "-" + r
 	}
-	return l + st.gap(false) + body + st.gap(false) + r
+	return l + st.pad(body, true) + body + st.pad(body, false) + r
 }
 
 func trimAt(ts []Trim, i int) Trim {
